@@ -10,6 +10,7 @@ import (
 	"encoding/json"
 	"errors"
 	"fmt"
+	"math"
 	"net"
 	"net/http"
 	"net/url"
@@ -55,6 +56,7 @@ type source struct {
 	closed   bool
 	closedAt int64
 	retract  chan struct{}
+	lateErr  bool // its producer reported an error after the operation's context was cancelled
 }
 
 type opState struct {
@@ -84,6 +86,14 @@ type cframe struct {
 }
 
 type sessionKey struct{}
+
+// failsOnFirstEvent: operation kinds whose first event cannot be serialised (the operation ends
+// with an error frame, the transport's panic is recovered once)
+func failsOnFirstEvent(kind string) bool {
+	return kind == "sub-events-marshal-panic" || kind == "sub-unencodable"
+}
+
+var lateErrRe = regexp.MustCompile(`X:late-error-of-op-(\d+)`)
 
 var opNameRe = regexp.MustCompile(`Op(\d+)`)
 
@@ -197,6 +207,19 @@ func Run(rc *core.RunCtx) {
 	srv := handler.New(u.ES)
 	srv.AddTransport(ws)
 	srv.Use(gate{})
+	var unencDone sync.Map // operation text -> its first payload has been spoilt
+	srv.AroundResponses(func(ctx context.Context, next graphql.ResponseHandler) *graphql.Response {
+		r := next(ctx)
+		if r != nil && graphql.HasOperationContext(ctx) {
+			if q := graphql.GetOperationContext(ctx).RawQuery; strings.Contains(q, "_Unenc") {
+				if _, done := unencDone.LoadOrStore(q, true); !done {
+					// a value encoding/json refuses: this one payload cannot be sent
+					r.Extensions = map[string]any{"bad": math.NaN()}
+				}
+			}
+		}
+		return r
+	})
 	srv.SetRecoverFunc(func(ctx context.Context, err any) error {
 		panicsRecovered.Add(1)
 		return fmt.Errorf("recovered:%v", err)
@@ -437,6 +460,12 @@ func Run(rc *core.RunCtx) {
 			if !s.closed && !s.pending && s.ctx.Err() == nil {
 				acts = append(acts, action{kind: "emit", src: s}, action{kind: "end", src: s}, action{kind: "end-error", src: s})
 			}
+			// the producer of an operation whose context is already cancelled (stopped by the
+			// client, say) reports its failure a little later, as AddSubscriptionError's own
+			// documentation shows: that error belongs to nobody else
+			if !s.closed && !s.pending && s.ctx.Err() != nil && !s.lateErr {
+				acts = append(acts, action{kind: "late-error", src: s})
+			}
 		}
 		mu.Unlock()
 		workPending := len(acts) > 0 || sendsOutstanding.Load() > 0
@@ -484,7 +513,7 @@ func Run(rc *core.RunCtx) {
 				return 8
 			case "emit":
 				return 6
-			case "end", "end-error":
+			case "end", "end-error", "late-error":
 				return 1
 			case "c-init":
 				return 30
@@ -564,6 +593,12 @@ func Run(rc *core.RunCtx) {
 				mu.Unlock()
 			}()
 			w.Count("emissions")
+		case "late-error":
+			s := a.src
+			s.lateErr = true
+			transport.AddSubscriptionError(s.ctx, &gqlerror.Error{Message: "X:late-error-of-op-" + s.id})
+			w.Logf("late-error", s.id, "")
+			w.Count("late_subscription_errors")
 		case "end", "end-error":
 			s := a.src
 			if a.kind == "end-error" {
@@ -633,7 +668,11 @@ func Run(rc *core.RunCtx) {
 			wireOps[o.wire] = append(wireOps[o.wire], o)
 			var query string
 			var payloadExtra map[string]any
-			switch t.Choose(15, "opkind") {
+			switch t.Choose(16, "opkind") {
+			case 15:
+				// the first payload of this subscription cannot be encoded by the transport
+				o.kind, o.isStream = "sub-unencodable", true
+				query = fmt.Sprintf("subscription Op%s_Unenc { ticks(n: 3) }", id)
 			case 13:
 				o.kind = "rejected-by-parameter-gate"
 				query = fmt.Sprintf("query Op%s_RejP { hello me { id } }", id)
@@ -813,7 +852,7 @@ func Run(rc *core.RunCtx) {
 					}
 					src := sources[id]
 					if o.isStream && src != nil && !src.pending {
-						if o.kind == "sub-events-marshal-panic" {
+						if failsOnFirstEvent(o.kind) {
 							if len(src.done) >= 1 && !term {
 								flag("panic-not-contained", "operation %s: serialising its event panicked but the operation got no error frame at a settled point", id)
 							}
@@ -1015,6 +1054,21 @@ func Run(rc *core.RunCtx) {
 			}
 		}
 	}
+	// an error reported for one operation must not show up in the frames of another
+	for _, f := range frames {
+		if f.Opcode == 1 && f.Type == "error" {
+			if m := lateErrRe.FindStringSubmatch(string(f.Payload)); m != nil {
+				if o := opOf(f); o == nil || o.id != m[1] {
+					got := "?"
+					if o != nil {
+						got = o.id
+					}
+					rc.Fail("error-of-another-operation", "late-error", "operation %s was terminated with the error that the producer of operation %s reported\n%s", got, m[1], desc())
+					return
+				}
+			}
+		}
+	}
 	if initMode == 3 && ackSeen {
 		rc.Fail("ack-despite-rejected-init", "init", "%s", desc())
 		return
@@ -1087,7 +1141,7 @@ func Run(rc *core.RunCtx) {
 	}
 	wantRec := 0
 	for _, id := range opOrder {
-		if o := opsByID[id]; o.kind == "sub-events-marshal-panic" {
+		if o := opsByID[id]; failsOnFirstEvent(o.kind) {
 			if src := sources[id]; src != nil && len(src.done) >= 1 {
 				wantRec++
 			}
